@@ -559,3 +559,14 @@ def run(ctx):
         'C12.OW3.clean') else 'C07.AS.clean'.rsplit('.', 1)[0] + '.clean_files'),
         _m, _c12.Effects(ctx, _m))
     derived_owner(ctx, 'C07.AS.owner')
+    # jtvec / gradient share the residual: after jtvec(v) the gradient must
+    # again be the one of the misfit (rule family of C08, shared)
+    from ..core.report import Filtered
+    from . import c08 as _c08
+    _c08.run(Filtered(ctx, 'C08.V4.weights', 'C07.AS.weights'))
+    # the back-propagated field comes from the same solver: a source that is
+    # not exactly zero is solved for, whatever its scale (zero-source rule of
+    # C01, shared)
+    from . import c01 as _c01
+    _M = _c01.SolverModel(ctx)
+    _c01.rule_R1(Filtered(ctx, 'C01.R1', 'C07.AS.solver'), _M)
